@@ -36,6 +36,11 @@ STD_RULES = {
     'nullptr': [[r'\bnullptr\b', 'NULL', 0]],
     'labels': [[r'^[ \t]*__label__[^;]*;[ \t]*\n', '', 0]],
     'bool': [],
+    # frequent std spellings that have a direct C meaning at the concrete instantiation
+    'stdtypes': [[r'\bstd::make_unsigned_t<\s*(?:std::)?int64_t\s*>', 'uint64_t', 0], [r'\bstd::make_unsigned_t<\s*(?:std::)?int32_t\s*>', 'uint32_t', 0],
+                 [r'\bstd::make_unsigned_t<\s*int\s*>', 'unsigned int', 0], [r'\bstd::make_unsigned_t<\s*long\s*>', 'unsigned long', 0],
+                 [r'\bstd::make_signed_t<\s*(?:std::)?uint64_t\s*>', 'int64_t', 0], [r'\bstd::make_signed_t<\s*(?:std::)?size_t\s*>', 'ptrdiff_t', 0],
+                 [r'\bstd::(size_t|ptrdiff_t|u?int(?:8|16|32|64)_t|uintptr_t|intptr_t)\b', r'\1', 0]],
 }
 
 
@@ -340,7 +345,7 @@ def _op_func(repo, p, struct_members):
         sp = '%sstruct %s *self' % ('const ' if re.search(r'\bconst\b', after.split(':')[0]) and p.get('const_self') else '', p.get('self_as', selfc))
         params = sp + (', ' + params if params and params != 'void' else '')
     rules = []
-    for s in p.get('std', ['casts', 'nullptr', 'labels']):
+    for s in p.get('std', ['casts', 'nullptr', 'labels', 'stdtypes']):
         rules += STD_RULES[s]
     rules += p.get('rewrite', [])
     body, f2 = _apply_rules(body, rules, name)
